@@ -10,6 +10,13 @@ import ArcaModel.Model.Ops
     treat-empty-as-default test of `extractPropertyValue` / `validateStruct`), `subDefS`
     (`applySubObjectDefaultValues`), `construct` (`NewStructMappedObjectSchema`), and the three
     operations `srun` over schema trees whose leaves are map-backed schemas handed to `run`.
+  * `runOneOfS`: one-ofs whose members are struct-mapped objects (`NewOneOfStringSchema[any]` /
+    `NewOneOfIntSchema[any]`). Unserialize routes by the discriminator of the raw map and returns
+    the member's struct; Validate and Serialize route through `findUnderlyingType`, by the dynamic
+    type of the value - the LAST member of that type in the iteration order of the members map
+    (`members` lists them in that order, so with two members of one struct type the outcome depends
+    on the order; `wfSB` asks pairwise distinct types); Serialize attaches the discriminator unless
+    the member serialized one.
 
   The model mirrors the code that exists, oddities included: a non-pointer field always counts as
   set; `reflect.Value.Convert` turns integers
@@ -113,13 +120,16 @@ mutual
 /-- A schema tree with struct-mapped objects. `leaf` is any map-backed (closed) schema, run by
     `run`; `scope` is a scope whose root is the given schema (references are inlined by the
     harness; a scope matters because `applySubObjectDefaultValues` does not look through it);
-    `obj` is `NewStructMappedObjectSchema[T]` with `T = st` or (`ptrT`) `T = *st`. -/
+    `obj` is `NewStructMappedObjectSchema[T]` with `T = st` or (`ptrT`) `T = *st`; `oneOf` is a
+    one-of over struct-mapped members (a one-of whose members are all map-backed is a `leaf`). -/
 inductive STy where
   | leaf (t : Ty)
   | list (item : STy) (min max : Option Int)
   | map (k : Ty) (v : STy) (min max : Option Int)
   | scope (t : STy)
   | obj (id : String) (st : StructTy) (ptrT : Bool) (props : List (String × SProp))
+  /-- `NewOneOfStringSchema[any]` / `NewOneOfIntSchema[any]` whose members are struct-mapped objects -/
+  | oneOf (intKey : Bool) (disc : String) (inlined : Bool) (members : List (Key × STy))
 inductive SProp where
   | mk (ty : STy) (required : Bool) (requiredIf requiredIfNot conflicts : List String)
        (default : Option DefaultV) (disabled : Bool) (emptyIsDefault : Bool)
@@ -160,6 +170,7 @@ def reflTy : STy → GoTy
   | .map k v _ _ => .map (tyRefl k) (reflTy v)
   | .scope t => reflTy t
   | .obj _ st ptrT _ => if ptrT then .ptr (.struct st.name) else .struct st.name
+  | .oneOf _ _ _ _ => .iface
 
 /-! ### `reflect.Value.Convert` on the modelled universe -/
 
@@ -230,7 +241,13 @@ def dynTy : V → GoTy
     the dynamic type when that is the empty interface -/
 def srcTy (t : STy) (v : SV) : GoTy :=
   let r := reflTy t
-  if r == .iface then (match v with | .val x => dynTy x | _ => .iface) else r
+  if r == .iface then
+    (match v with
+     | .val x => dynTy x
+     | .struct id _ => .struct id
+     | .ptr (.struct id _) => .ptr (.struct id)
+     | _ => .iface)
+  else r
 
 /-- the type a property's value has inside its field: what a pointer field points to when the
     property's own type is not a pointer (`unserializeToStruct` allocates, `getFieldReflection`
@@ -313,11 +330,11 @@ def SV.isNilIface : SV → Bool
   | .val .nil => true
   | _ => false
 
-/-- `getFieldReflection`, the pointer step: a non-nil pointer is followed unless the property's own
-    type is a pointer type -/
-def fieldValue (src : GoTy) (fv : SV) : SV :=
+/-- `getFieldReflection`, the pointer step: the value of a POINTER field is followed unless the
+    property's own type is a pointer type (a pointer inside an interface field is left alone) -/
+def fieldValue (fty src : GoTy) (fv : SV) : SV :=
   match fv with
-  | .ptr e => if src.isPtr then fv else e
+  | .ptr e => if fty.isPtr && !src.isPtr then e else fv
   | _ => fv
 
 /-- `reflect.Value.IsZero()` of a value of static type `vty`: a non-nil interface is not zero,
@@ -331,12 +348,12 @@ def reflIsZero (vty : GoTy) (x : SV) : Bool := vty != .iface && x.isZero
 def readField (f : Field) (src : GoTy) (disabled emptyIsDefault : Bool) (fv : SV) : Out (Option SV) :=
   if fv.isNilPtr then .ok none
   else if !f.exported then .panic
-  else if (fieldValue src fv).isNilIface then .ok none
-  else if disabled && reflIsZero (elemTy f.ty src) (fieldValue src fv) then .ok none
+  else if (fieldValue f.ty src fv).isNilIface then .ok none
+  else if disabled && reflIsZero (elemTy f.ty src) (fieldValue f.ty src fv) then .ok none
   else if emptyIsDefault then
-    (emptyLike (elemTy f.ty src) src (fieldValue src fv)).bind fun e =>
-      .ok (if e then none else some (fieldValue src fv))
-  else .ok (some (fieldValue src fv))
+    (emptyLike (elemTy f.ty src) src (fieldValue f.ty src fv)).bind fun e =>
+      .ok (if e then none else some (fieldValue f.ty src fv))
+  else .ok (some (fieldValue f.ty src fv))
 
 /-- what `serializeStruct` / `validateStruct` read from a struct value: the set properties with
     their field values, in the order of the property table -/
@@ -473,6 +490,7 @@ def construct : Nat → STy → Out Unit
   | n + 1, .scope t => construct n t
   | n + 1, .obj _ st _ props =>
     (allOk (fun (kp : String × SProp) => construct n kp.2.ty) props).bind fun _ => constructObj st props
+  | n + 1, .oneOf _ _ _ members => allOk (fun (m : Key × STy) => construct n m.2) members
 
 /-! ### the operations -/
 
@@ -659,6 +677,78 @@ def runObjS (rec : SRec) (fuel : Nat) (op : SOp) (st : StructTy) (ptrT : Bool)
           (forSVS (fun _ e => asVal e) m).bind fun m' =>
             (interdeps (rulesOf props) (fun k => hasKey k raw)).bind fun _ => .ok (.val (toStrAny m'))
 
+/-! #### one-ofs over struct-mapped members -/
+
+/-- the dynamic type of a struct value or of a pointer to one (`reflect.TypeOf(data)`) -/
+def svTy? : SV → Option GoTy
+  | .struct id _ => some (.struct id)
+  | .ptr (.struct id _) => some (.ptr (.struct id))
+  | _ => none
+
+/-- `findUnderlyingType` for a struct value: the member whose reflected type is the value's dynamic
+    type - the LAST one the loop over the member table meets (Go leaves the order open: when two
+    members share a struct type the outcome depends on it; here: the order of the list) -/
+def findMember (members : List (Key × STy)) (s : SV) : Option (Key × STy) :=
+  match svTy? s with
+  | none => none
+  | some g => (members.filter fun m => reflTy m.2 == g).getLast?
+
+/-- `OneOfSchema.UnserializeType` with struct-mapped members: routed by the discriminator of the raw
+    map; a member result that is a `map[string]any` gets the discriminator, a struct is returned as
+    it is (`saveConvertTo(..., any)`) -/
+def oneOfUnserS (rec : SRec) (x : Ext) (intKey : Bool) (disc : String) (inlined : Bool)
+    (members : List (Key × STy)) (s : SV) : Out SV :=
+  match s.toV? with
+  | none => .cerr
+  | some .nil => .plain
+  | some v =>
+    match v.mapEntries? with
+    | none => .cerr
+    | some (sh, kvs) =>
+      if !(sh.key == .any || sh.key == .string) then .cerr else
+      match kvs.find? (isDiscKey disc) with
+      | none => .cerr
+      | some (_, d) =>
+        let typed : Out Key :=
+          if intKey then (rewrapC (intInputMapper none d)).bind fun n => .ok (.i n)
+          else (rewrapC (stringInputMapper x d)).bind fun s => .ok (.s s)
+        typed.bind fun key =>
+          match strKeys? kvs with
+          | none => .cerr
+          | some m =>
+            match lookupK key members with
+            | none => .cerr
+            | some mt =>
+              (rec .U mt (.val (toStrAny (if inlined then m else eraseKey disc m)))).bind fun r =>
+                match r with
+                | .val (.map ⟨.string, true⟩ rk) =>
+                  match strKeys? rk with
+                  | some rm => .ok (.val (toStrAny (setKey disc key.toV rm)))
+                  | none => .cerr
+                | _ => .ok r
+
+def runOneOfS (rec : SRec) (x : Ext) (op : SOp) (intKey : Bool) (disc : String) (inlined : Bool)
+    (members : List (Key × STy)) (s : SV) : Out SV :=
+  match op with
+  | .U => oneOfUnserS rec x intKey disc inlined members s
+  | .V =>
+    -- (a map is routed by its discriminator and then refused by the struct-mapped member; anything
+    --  that is neither a struct nor a pointer to one nor a map is refused at once: an error either way)
+    match findMember members s with
+    | none => .cerr
+    | some (k, mt) => ((rec .V mt s).addSeg ("{oneof[" ++ k.fmt ++ "]}")).bind fun _ => .ok (.val unitV)
+  | .S =>
+    match findMember members s with
+    | none => .cerr
+    | some (k, mt) =>
+      (rec .S mt s).bind fun r =>
+        match r with
+        | .val (.map ⟨.string, true⟩ rk) =>
+          match strKeys? rk with
+          | some rm => .ok (.val (toStrAny (if hasKey disc rm then rm else rm ++ [(disc, k.toV)])))
+          | none => .cerr
+        | _ => .panic  -- `serializedData.(map[string]any)` is an unchecked assertion
+
 /-- One operation of the SDK on a schema tree with struct-mapped objects.
     `U`: input `val raw`, result the Go value (structs at the struct-mapped objects);
     `V`: result `val unitV`; `S`: result `val serialized`. -/
@@ -671,6 +761,7 @@ def srun (x : Ext) : Nat → SRec
     | .map kt vt min max => runMapS (srun x fuel) x fuel op kt vt min max s
     | .scope t => srun x fuel op t s
     | .obj _ st ptrT props => runObjS (srun x fuel) fuel op st ptrT props s
+    | .oneOf intKey disc inlined members => runOneOfS (srun x fuel) x op intKey disc inlined members s
 
 /-- construction followed by one operation: what a harness case observes -/
 def caseRun (x : Ext) (fuel : Nat) (op : SOp) (t : STy) (s : SV) : Out SV :=
